@@ -15,6 +15,8 @@ pub struct BlockDecoder {
     pub initialized: bool,
     pub block_size: usize,
     decoder: Option<Box<dyn FecDecoder>>,
+    /// RaptorQ: every encoding symbol of the block has exactly this length
+    symbol_length: Option<usize>,
 }
 
 impl BlockDecoder {
@@ -24,6 +26,7 @@ impl BlockDecoder {
             initialized: false,
             decoder: None,
             block_size: 0,
+            symbol_length: None,
         }
     }
 
@@ -88,6 +91,7 @@ impl BlockDecoder {
                         scheme,
                     );
                     self.decoder = Some(Box::new(codec));
+                    self.symbol_length = Some(oti.encoding_symbol_length as usize);
                 } else {
                     return Err(FluteError::new("RaptorQ Scheme not found"));
                 }
@@ -134,6 +138,17 @@ impl BlockDecoder {
         }
 
         let payload = &pkt.data[pkt.data_payload_offset..];
+        if let Some(symbol_length) = self.symbol_length {
+            if payload.len() != symbol_length {
+                // the RaptorQ library panics on a symbol that has not the length of the block's symbols
+                log::warn!(
+                    "Encoding symbol of {} bytes ignored, symbol length is {}",
+                    payload.len(),
+                    symbol_length
+                );
+                return;
+            }
+        }
         let decoder = self.decoder.as_mut().unwrap();
         decoder.push_symbol(payload, payload_id.esi);
 
